@@ -9,7 +9,8 @@ Integer layer (complete):
 Container layer: validation guards and error categories of every ReadPayload: see nopsa/encrules.py
 """
 from .. import facts, ilrules, ir, report, symx
-from .. import encrules
+from .. import encrules, rwrules
+from . import c16
 
 
 def read_dispatch(chk, db, rule):
@@ -60,10 +61,15 @@ def rules(chk, db):
     encrules.composition(chk, db, 'CO', ('ReadPayload', 'Match'))
     chk.rule('NR.r', 'no run-time narrowing integral conversion in any ReadPayload (validation sees the full 64-bit length)', minimum=10)
     encrules.narrowing(chk, db, 'NR.r', {'ReadPayload', 'Read'})
+    # ReadLimitReached category: an over-long declared length is refused by the reader's Ensure, exactly and overflow-safely
+    chk.rule('T', 'Ensure(n) succeeds exactly when n <= limit - pos, overflow-safe', minimum=2)
+    for rec in ('nop::BufferReader', 'nop::PedanticBufferReader'):
+        rwrules.check_buffer_class(chk, db, rec, {'T': 'T', 'G': None, 'E': None, 'C': None}, guard_required=False)
+    c16.rules(chk, db, prefix='BR.', only={'nop::BoundedReader'})
 
 
 def run(chk, db):
-    facts.gate(chk, db, ['nop/base/'])
+    facts.gate(chk, db, ['nop/base/', 'nop/utility/buffer_reader.h', 'nop/utility/pedantic_buffer_reader.h', 'nop/utility/bounded_reader.h'])
     rules(chk, db)
     chk.explanation = (
         'Integer layer: Match evaluated on all 256 prefix bytes for each of the nine integer encoders and compared with the documented '
